@@ -18,17 +18,18 @@ def c01(tier, seed):
 
 
 def c03(tier, seed):
-    return cc.codec_check('C03', tier, seed, ['der'], ['DER'], ['enc'], numerics='0',
+    return cc.codec_check('C03', tier, seed, ['der'], ['DER'], ['enc'], numerics='0', model=['DerCanonical', 'DerIsDer'],
                           fixtures={'quick': (['tests/test_der.py'], 'not rfc5280 and not performance'),
                                     'thorough': (['tests/test_der.py', 'tests/test_codecs_consistency.py'], None)})
 
 
 def c16(tier, seed):
-    return cc.codec_check('C16', tier, seed, ['ber', 'der', 'per', 'uper', 'oer'], ['PREFIX'], ['enc', 'pre'], numerics='0')
+    return cc.codec_check('C16', tier, seed, ['ber', 'der', 'per', 'uper', 'oer'], ['PREFIX'], ['enc', 'pre'], numerics='0',
+                          model=['PrefixFreeTlv'])
 
 
 def c05(tier, seed):
-    return cc.codec_check('C05', tier, seed, ['per', 'uper'], ['PER'], ['enc', 'dec'], numerics='0',
+    return cc.codec_check('C05', tier, seed, ['per', 'uper'], ['PER'], ['enc', 'dec'], numerics='0', model=['PerOctetPadded'],
                           fixtures={'quick': (['tests/test_uper.py', 'tests/test_per.py'], 'x691 or foo or sequence or choice or integer or enumerated or string'),
                                     'thorough': (['tests/test_uper.py', 'tests/test_per.py', 'tests/test_codecs_consistency.py'], None)})
 
